@@ -32,6 +32,7 @@ type commitInfo struct {
 	updID uint64
 	by   uint64 // node from whose log it was taken
 	step int
+	cterm uint64 // current term of the node on which it was first seen committed
 }
 
 // shadow is the observer's copy of one incarnation's log coordinates.
@@ -76,6 +77,7 @@ type ledgers struct {
 	elections int
 	leadersElected int
 	tasks *taskLedger
+	persisted    map[uint64]map[[2]uint64]bool // nid -> (term, vote) pairs seen durable on its disk
 	connTerm     map[int]uint64
 	reportedTerm map[uint64]uint64 // nid -> highest term it put on the wire in a response or vote request
 	ackedIdx     map[uint64]uint64 // nid -> highest index acknowledged with success (across incarnations)
@@ -94,6 +96,7 @@ func newLedgers(c *cluster) *ledgers {
 		cfgEntries: map[uint64]map[uint64]Config{},
 		reportedTerm: map[uint64]uint64{},
 		connTerm: map[int]uint64{},
+		persisted: map[uint64]map[[2]uint64]bool{},
 		ackedIdx: map[uint64]uint64{},
 	}
 }
@@ -103,6 +106,7 @@ func newLedgers(c *cluster) *ledgers {
 func (l *ledgers) onStart(n *simNode) {
 	c := l.c
 	r := n.r
+	l.notePersisted(n.id, n.dir)
 	if rep := l.reportedTerm[n.id]; r.term < rep {
 		c.fail("term-monotonic", "term-lost-on-restart", "node %d restarted with term %d after reporting term %d", n.id, r.term, rep)
 	}
@@ -273,7 +277,7 @@ func (c *cluster) observeNode(n *simNode) {
 		if ent == nil {
 			continue
 		}
-		l.noteCommit(i, t, ent, n.id)
+		l.noteCommit(i, t, ent, n.id, term)
 	}
 	if r.commitIndex > l.maxCommit {
 		l.maxCommit = r.commitIndex
@@ -337,7 +341,7 @@ func (l *ledgers) noteEntry(nid uint64, e *entry, prevTerm uint64, prevKnown boo
 	l.entries[key] = ei
 }
 
-func (l *ledgers) noteCommit(i, term uint64, ent *entryInfo, by uint64) {
+func (l *ledgers) noteCommit(i, term uint64, ent *entryInfo, by uint64, cterm uint64) {
 	c := l.c
 	if old := l.commit[i]; old != nil {
 		if old.term != term || old.hash != ent.hash || old.typ != ent.typ {
@@ -345,7 +349,7 @@ func (l *ledgers) noteCommit(i, term uint64, ent *entryInfo, by uint64) {
 		}
 		return
 	}
-	l.commit[i] = &commitInfo{term: term, typ: ent.typ, hash: ent.hash, updID: ent.updID, by: by, step: c.stepNo}
+	l.commit[i] = &commitInfo{term: term, typ: ent.typ, hash: ent.hash, updID: ent.updID, by: by, step: c.stepNo, cterm: cterm}
 	if i > l.maxCommit {
 		l.maxCommit = i
 	}
@@ -381,7 +385,7 @@ func (c *cluster) onElectionStarted(e *event) {
 	}
 	c.led.votes[key] = e.nid
 	want := fmt.Sprintf("%d-%d.term", e.term, e.nid)
-	if e.s != want {
+	if e.s != want && !c.led.wasPersisted(e.nid, e.term, e.nid) {
 		c.fail("vote-durable", "selfvote-not-durable", "node %d requests votes for term %d but its term file is %q (want %q)", e.nid, e.term, e.s, want)
 	}
 	if n, ok := e.cfg.Latest.Nodes[e.nid]; !ok || !n.Voter {
@@ -399,6 +403,11 @@ func (c *cluster) onEventPost(e *event) {
 			for i := uint64(1); i <= l.maxCommitPre; i++ {
 				ci := l.commit[i]
 				if ci == nil || ci.step >= c.stepNo {
+					continue
+				}
+				if ci.cterm >= e.term {
+					// leader completeness speaks about leaders of later terms; a
+					// candidate of an older term may still collect delayed votes
 					continue
 				}
 				if i <= e.prev {
@@ -565,4 +574,25 @@ func canonicalConfigHash(e *entry) uint64 {
 		_ = cfg.Nodes[id].encode(&buf)
 	}
 	return hash64(buf.Bytes())
+}
+
+// notePersisted records what the node's term file says right now (called at
+// start and from the hook that follows every successful term/vote rename).
+func (l *ledgers) notePersisted(nid uint64, dir string) {
+	var t, v uint64
+	if _, err := fmt.Sscanf(termFileOf(dir), "%d-%d.term", &t, &v); err != nil {
+		return
+	}
+	l.c.evMu.Lock()
+	if l.persisted[nid] == nil {
+		l.persisted[nid] = map[[2]uint64]bool{}
+	}
+	l.persisted[nid][[2]uint64{t, v}] = true
+	l.c.evMu.Unlock()
+}
+
+func (l *ledgers) wasPersisted(nid, term, vote uint64) bool {
+	l.c.evMu.Lock()
+	defer l.c.evMu.Unlock()
+	return l.persisted[nid][[2]uint64{term, vote}]
 }
